@@ -134,6 +134,9 @@ func entryFiles(d *simos.Disk) map[string][]byte {
 
 // runPlan instantiates the compiled module and checks it against the plan model.
 func runPlan(w *world, cm wazero.CompiledModule, p *plan.Plan) string {
+	if p == nil {
+		return "" // external binary: compile-level checks only
+	}
 	mod, err := w.rt.InstantiateModule(w.ctx, cm, wazero.NewModuleConfig().WithName(""))
 	if err != nil {
 		return fmt.Sprintf("instantiate failed: %v", err)
@@ -216,10 +219,31 @@ func reference(bin []byte) (string, []byte, []simos.Syscall, error) {
 	return "", nil, log, fmt.Errorf("compiling wrote no cache entry (files: %v)", d.List())
 }
 
+// dwarfBinaries: small real-world modules with DWARF sections from the repository's own test data (their
+// cache entries carry a source-map table, which generated plans never have).
+func dwarfBinary(i int) []byte {
+	repo := os.Getenv("VERIF_REPO")
+	if repo == "" {
+		repo = "/repo"
+	}
+	names := []string{"zig/main.wasm", "zig-cc/main.wasm"}
+	b, err := os.ReadFile(repo + "/internal/testing/dwarftestdata/testdata/" + names[i%len(names)])
+	if err != nil {
+		return nil
+	}
+	return b
+}
+
 func (c13) Run(t *tape.Tape, cfg sim.Config) (res sim.Result) {
 	defer func() { simos.Current = nil }()
 	p := genPlan(t)
 	bin := p.Encode()
+	if cfg.Class == "truncation" && cfg.Run%3 == 2 {
+		if b := dwarfBinary(int(cfg.Run / 3)); b != nil {
+			bin, p = b, nil
+			res.Stat("probe.dwarf_binary_entries", 1)
+		}
+	}
 	refPath, ref, log, err := reference(bin)
 	if err != nil {
 		panic(fmt.Sprintf("harness: reference compile failed: %v", err))
@@ -238,7 +262,11 @@ func (c13) Run(t *tape.Tape, cfg sim.Config) (res sim.Result) {
 		ops = append(ops, s.Op)
 	}
 	res.Logf("module %d bytes, entry %d bytes at %s, add syscalls: %v", len(bin), len(ref), refPath, ops)
-	res.Sample = map[string]any{"plan": describe(p), "entry_bytes": len(ref), "add_syscalls": ops}
+	if p != nil {
+		res.Sample = map[string]any{"plan": describe(p), "entry_bytes": len(ref), "add_syscalls": ops}
+	} else {
+		res.Sample = map[string]any{"module": "repository DWARF test binary", "entry_bytes": len(ref), "add_syscalls": ops}
+	}
 	res.Shape = sim.ShapeOf(fmt.Sprint(len(ref)), strings.Join(ops, ","), cfg.Class)
 	switch cfg.Class {
 	case "crash-points":
